@@ -242,7 +242,7 @@ func genG09(repo string, w *Out) error {
 		"case *http2.WindowUpdateFrame:", "r.peer.updateWindow(f)",
 		"case *http2.ContinuationFrame:", "r.headerBuffer.Write(f.HeaderBlockFragment())", "if f.HeadersEnded() {",
 		"r.decodeFull(r.headerBuffer.Bytes())", "r.continuationState.complete(r.processor(f.StreamID), headers)",
-		"default:", `errors.New("unrecognized frame type")`); err != nil {
+		"default:", "err = errors.New("); err != nil {
 		return err
 	}
 	// is every setting validated before it is applied?
